@@ -32,10 +32,18 @@ func (nopLogger) Fatalf(f string, a ...any) {
 	panic(fmt.Sprintf("pebble fatal: "+f, a...))
 }
 
-// Backend opens a fresh, empty store.
+// Backend opens a fresh, empty store and can reopen it (durable backends).
 type Backend struct {
 	Name string
-	Open func() (db.KeyValueStore, func(), error)
+	Open func() (*Store, error)
+}
+
+// Store is an open backend plus what is needed to reopen it on the same files.
+type Store struct {
+	KV     db.KeyValueStore
+	reopen func() (db.KeyValueStore, error) // nil: not durable (db/memory)
+	flush  func(db.KeyValueStore) error     // force memtable -> sstable + compaction; nil: nothing to do
+	clean  func()
 }
 
 var scratchRoot = "/tmp/aC15"
@@ -48,92 +56,132 @@ func tempDir() (string, error) {
 }
 
 func memoryBackend() Backend {
-	return Backend{"memory", func() (db.KeyValueStore, func(), error) { return memory.New(), func() {}, nil }}
+	return Backend{"memory", func() (*Store, error) {
+		return &Store{KV: memory.New(), clean: func() {}}, nil
+	}}
 }
 
-// pebble backends on pebble's in-memory file system (what juno's own tests use)
+// pebble backends: on pebble's in-memory file system (what juno's own tests use) or on a real
+// directory; small memtables so that larger sequences reach sstables on their own
 func pebble1Backend(disk bool) Backend {
-	return Backend{"pebble1", func() (db.KeyValueStore, func(), error) {
+	return Backend{"pebble1", func() (*Store, error) {
 		dir, clean := "c15", func() {}
+		var fs cvfs.FS = cvfs.NewMem()
 		if disk {
 			d, err := tempDir()
 			if err != nil {
-				return nil, nil, err
+				return nil, err
 			}
-			dir, clean = d, func() { os.RemoveAll(d) }
+			dir, clean, fs = d, func() { os.RemoveAll(d) }, cvfs.Default
 		}
-		s, err := pebblev1.New(dir, func(o *cpebble.Options) error {
-			if !disk {
-				o.FS = cvfs.NewMem()
+		open := func() (db.KeyValueStore, error) {
+			return pebblev1.New(dir, func(o *cpebble.Options) error {
+				o.FS = fs
+				o.Logger = nopLogger{}
+				o.MemTableSize = 64 << 10
+				return nil
+			})
+		}
+		s, err := open()
+		if err != nil {
+			clean()
+			return nil, err
+		}
+		return &Store{KV: s, reopen: open, clean: clean, flush: func(s db.KeyValueStore) error {
+			p, ok := s.Impl().(*cpebble.DB)
+			if !ok {
+				return fmt.Errorf("Impl() is %T", s.Impl())
 			}
-			o.Logger = nopLogger{}
-			return nil
-		})
-		return s, clean, err
+			if err := p.Flush(); err != nil {
+				return err
+			}
+			return p.Compact([]byte{}, []byte{0xff, 0xff, 0xff, 0xff, 0xff}, true)
+		}}, nil
 	}}
 }
 
 func pebble2Backend(disk bool) Backend {
-	return Backend{"pebble2", func() (db.KeyValueStore, func(), error) {
+	return Backend{"pebble2", func() (*Store, error) {
 		dir, clean := "c15", func() {}
+		var fs cvfs2.FS = cvfs2.NewMem()
 		if disk {
 			d, err := tempDir()
 			if err != nil {
-				return nil, nil, err
+				return nil, err
 			}
-			dir, clean = d, func() { os.RemoveAll(d) }
+			dir, clean, fs = d, func() { os.RemoveAll(d) }, cvfs2.Default
 		}
-		s, err := pebblev2.New(dir, func(o *cpebble2.Options) error {
-			if !disk {
-				o.FS = cvfs2.NewMem()
+		open := func() (db.KeyValueStore, error) {
+			return pebblev2.New(dir, func(o *cpebble2.Options) error {
+				o.FS = fs
+				o.Logger = nopLogger{}
+				o.MemTableSize = 64 << 10
+				return nil
+			})
+		}
+		s, err := open()
+		if err != nil {
+			clean()
+			return nil, err
+		}
+		return &Store{KV: s, reopen: open, clean: clean, flush: func(s db.KeyValueStore) error {
+			p, ok := s.Impl().(*cpebble2.DB)
+			if !ok {
+				return fmt.Errorf("Impl() is %T", s.Impl())
 			}
-			o.Logger = nopLogger{}
-			return nil
-		})
-		return s, clean, err
+			if err := p.Flush(); err != nil {
+				return err
+			}
+			return p.Compact(nil, []byte{}, []byte{0xff, 0xff, 0xff, 0xff, 0xff}, true)
+		}}, nil
 	}}
 }
 
 // World is the state of one backend while a sequence runs: the store and the handle tables.
 type World struct {
-	name    string
-	store   db.KeyValueStore
-	closed  bool
-	batches []db.Batch // nil entry = never allocated (creation failed)
-	snaps   []db.Snapshot
-	iters   []db.Iterator
-	clean   func()
+	name     string
+	st       *Store
+	store    db.KeyValueStore
+	closed   bool
+	batches  []db.Batch // nil entry = never allocated (creation failed)
+	snaps    []db.Snapshot
+	snapDone []bool // Close was called on that snapshot
+	iters    []db.Iterator
+	poisoned bool // a call never returned (it may still hold a lock): the backend is not used any more
 }
 
 func NewWorld(b Backend) (*World, error) {
-	s, clean, err := b.Open()
+	st, err := b.Open()
 	if err != nil {
 		return nil, err
 	}
-	return &World{name: b.Name, store: s, clean: clean}, nil
+	return &World{name: b.Name, st: st, store: st.KV}, nil
 }
 
-// Dispose closes whatever is still open (errors and panics ignored) and removes the directory.
+// Dispose closes whatever is still open (errors and panics ignored: the sequences themselves end with
+// an in-contract close of everything, which IS compared) and removes the directory.
 func (w *World) Dispose() {
-	for _, it := range w.iters {
-		if it != nil {
-			lib.Try(func() error { return it.Close() })
+	if !w.poisoned {
+		for _, it := range w.iters {
+			if it != nil {
+				lib.Try(func() error { return it.Close() })
+			}
+		}
+		for _, b := range w.batches {
+			if b != nil {
+				lib.Try(func() error { return b.Close() })
+			}
+		}
+		for i, s := range w.snaps {
+			if s != nil && !w.snapDone[i] {
+				lib.Try(func() error { return s.Close() })
+			}
+		}
+		if !w.closed {
+			lib.Try(func() error { return w.store.Close() })
 		}
 	}
-	for _, b := range w.batches {
-		if b != nil {
-			lib.Try(func() error { return b.Close() })
-		}
-	}
-	for _, s := range w.snaps {
-		if s != nil {
-			lib.Try(func() error { return s.Close() })
-		}
-	}
-	if !w.closed {
-		lib.Try(func() error { return w.store.Close() })
-	}
-	w.clean()
+	w.st.clean()
 }
 
 func classify(err error) string {
@@ -146,6 +194,8 @@ func classify(err error) string {
 		return "notfound"
 	case errors.Is(err, cpebble.ErrNotFound), errors.Is(err, cpebble2.ErrNotFound):
 		return "err:pebble-notfound"
+	case errors.Is(err, cpebble.ErrNotIndexed), errors.Is(err, cpebble2.ErrNotIndexed):
+		return "err:not-indexed"
 	case errors.Is(err, cpebble.ErrClosed), errors.Is(err, cpebble2.ErrClosed), strings.Contains(err.Error(), "closed"):
 		return "err:closed"
 	case strings.Contains(err.Error(), "iterator is not valid"):
@@ -166,7 +216,7 @@ func bs(b []byte, nilB bool) []byte {
 
 func kv(k, v []byte) string { return hx(k) + "=" + hx(v) }
 
-// cur renders Valid/Key/Value of an iterator.
+// cur renders Valid/Key/Value of an iterator; Value and UncopiedValue must agree.
 func cur(it db.Iterator) string {
 	if !it.Valid() {
 		return "invalid"
@@ -175,6 +225,13 @@ func cur(it db.Iterator) string {
 	v, err := it.Value()
 	if err != nil {
 		return "valid-but-value-" + classify(err)
+	}
+	u, err := it.UncopiedValue()
+	if err != nil {
+		return "valid-but-uncopied-" + classify(err)
+	}
+	if string(u) != string(v) {
+		return "uncopied-value-differs:" + hx(u) + "/" + hx(v)
 	}
 	return kv(k, v)
 }
@@ -199,6 +256,7 @@ func (w *World) reader(src string) (db.KeyValueReader, string) {
 		if n >= len(w.batches) || w.batches[n] == nil {
 			return nil, "bad-handle"
 		}
+		// every backend's batch type has Get/Has/NewIterator, whether created indexed or not
 		ib, ok := w.batches[n].(db.IndexedBatch)
 		if !ok {
 			return nil, "bad-handle"
@@ -208,7 +266,7 @@ func (w *World) reader(src string) (db.KeyValueReader, string) {
 		if n >= len(w.snaps) || w.snaps[n] == nil {
 			return nil, "bad-handle"
 		}
-		return w.snaps[n], ""
+		return w.snaps[n], "" // also after its Close (outside the contract; compared with the models only)
 	}
 	return nil, "bad-op"
 }
@@ -241,7 +299,7 @@ func doHas(r db.KeyValueReader, o Op) string {
 	return strconv.FormatBool(ok)
 }
 
-const scanCap = 4096
+const scanCap = 100000
 
 func doScan(r db.KeyValueReader, o Op) string {
 	it, err := r.NewIterator(bs(o.Key, o.NilB), o.U)
@@ -264,19 +322,55 @@ func doScan(r db.KeyValueReader, o Op) string {
 	return "[" + strings.Join(parts, ",") + "]"
 }
 
-// Exec runs one op; panics of the code under test become the output "panic".
-func (w *World) Exec(o Op) (out string) {
-	done := lib.WithDeadline(20*time.Second, func() {
-		err, panicked, _ := lib.Try(func() error { out = w.exec(o); return nil })
-		_ = err
-		if panicked {
-			out = "panic"
+// doRScan: it.Seek(t); for ok := it.Prev(); ok; ok = it.Prev() { collect }
+func doRScan(r db.KeyValueReader, o Op) string {
+	it, err := r.NewIterator(bs(o.Key, o.NilB), o.U)
+	if err != nil {
+		return classify(err)
+	}
+	var parts []string
+	n := 0
+	it.Seek(bs(o.Key2, o.NilB))
+	for ok := it.Prev(); ok; ok = it.Prev() {
+		parts = append(parts, cur(it))
+		n++
+		if n > scanCap {
+			parts = append(parts, "unbounded")
+			break
 		}
-	})
-	if !done {
+	}
+	if err := it.Close(); err != nil {
+		return "close-" + classify(err)
+	}
+	return "[" + strings.Join(parts, ",") + "]"
+}
+
+// Exec runs one op; panics of the code under test become the output "panic", a call that does not
+// return within the deadline becomes "hang" (and the backend is not used any more).
+func (w *World) Exec(o Op) (out string) {
+	if w.poisoned {
+		return "poisoned"
+	}
+	deadline := 20 * time.Second
+	if o.K == "getw" || o.K == "xupdate" {
+		deadline = 1500 * time.Millisecond
+	}
+	res := make(chan string, 1)
+	go func() {
+		var s string
+		_, panicked, _ := lib.Try(func() error { s = w.exec(o); return nil })
+		if panicked {
+			s = "panic"
+		}
+		res <- s
+	}()
+	select {
+	case s := <-res:
+		return s
+	case <-time.After(deadline):
+		w.poisoned = true
 		return "hang"
 	}
-	return out
 }
 
 func (w *World) batch(h int) db.Batch {
@@ -301,7 +395,7 @@ func (w *World) exec(o Op) string {
 		return classify(w.store.Delete(bs(o.Key, o.NilB)))
 	case "delrange":
 		return classify(w.store.DeleteRange(bs(o.Key, o.NilB), bs(o.End, o.NilB)))
-	case "get", "has", "scan", "iter":
+	case "get", "has", "scan", "rscan", "iter", "getw":
 		r, bad := w.reader(o.Src)
 		if bad != "" {
 			if o.K == "iter" {
@@ -316,6 +410,19 @@ func (w *World) exec(o Op) string {
 			return doHas(r, o)
 		case "scan":
 			return doScan(r, o)
+		case "rscan":
+			return doRScan(r, o)
+		case "getw":
+			// Get whose callback writes to the store
+			var got []byte
+			err := r.Get(bs(o.Key, o.NilB), func(v []byte) error {
+				got = append([]byte{}, v...)
+				return w.store.Put(bs(o.Key2, o.NilB), bs(o.Val, o.NilB))
+			})
+			if err != nil {
+				return classify(err)
+			}
+			return "val:" + hx(got)
 		}
 		it, err := r.NewIterator(bs(o.Key, o.NilB), o.U)
 		if err != nil {
@@ -367,15 +474,16 @@ func (w *World) exec(o Op) string {
 	case "snap":
 		s := w.store.NewSnapshot() // panics on a closed store (both backends)
 		w.snaps = append(w.snaps, s)
+		w.snapDone = append(w.snapDone, false)
 		return "h:" + strconv.Itoa(len(w.snaps)-1)
 	case "sclose":
-		if o.H >= len(w.snaps) || w.snaps[o.H] == nil {
-			return "bad-handle"
+		if o.H >= len(w.snaps) || w.snaps[o.H] == nil || w.snapDone[o.H] {
+			return "bad-handle" // a second Close is not attempted
 		}
 		err := w.snaps[o.H].Close()
-		w.snaps[o.H] = nil
+		w.snapDone[o.H] = true
 		return classify(err)
-	case "first", "next", "prev", "seek", "value", "iclose":
+	case "first", "next", "prev", "seek", "value", "key", "iclose":
 		it := w.iter(o.H)
 		if it == nil {
 			return "bad-handle"
@@ -393,8 +501,20 @@ func (w *World) exec(o Op) string {
 		case "seek":
 			r := it.Seek(bs(o.Key, o.NilB))
 			return tf(r) + " " + cur(it)
+		case "key":
+			k := it.Key()
+			if k == nil {
+				return "nil"
+			}
+			return "key:" + hx(k)
 		case "value":
-			v, err := it.Value()
+			var v []byte
+			var err error
+			if o.U {
+				v, err = it.UncopiedValue()
+			} else {
+				v, err = it.Value()
+			}
 			if err != nil {
 				return classify(err)
 			}
@@ -457,10 +577,104 @@ func (w *World) exec(o Op) string {
 			return "-> " + classify(err)
 		}
 		return strings.Join(outs, ";") + " -> " + classify(err)
+	case "xupdate":
+		return w.xupdate(o)
+	case "flush":
+		if w.st.flush == nil || w.closed {
+			return "ok"
+		}
+		return classify(w.st.flush(w.store))
+	case "reopen":
+		if w.closed {
+			return "err:closed"
+		}
+		if w.st.reopen == nil {
+			return "ok" // db/memory is not durable: nothing to reopen
+		}
+		if w.st.flush != nil && o.U {
+			if err := w.st.flush(w.store); err != nil {
+				return "flush-" + classify(err)
+			}
+		}
+		if err := w.store.Close(); err != nil {
+			return "close-" + classify(err)
+		}
+		s, err := w.st.reopen()
+		if err != nil {
+			w.closed = true
+			return "reopen-" + classify(err)
+		}
+		w.store, w.st.KV = s, s
+		return "ok"
 	case "close":
 		err := w.store.Close()
 		w.closed = true
 		return classify(err)
 	}
 	return "bad-op"
+}
+
+// xupdate: helper callbacks that re-enter the store (not representable in the models; compared
+// backend against backend). o.Src selects the shape; the result lists what the store holds after.
+func (w *World) xupdate(o Op) string {
+	k1, k2 := bs(o.Key, false), bs(o.Key2, false)
+	var err error
+	switch o.Src {
+	case "direct-put-then-fail": // the callback writes to the store directly, then fails
+		err = w.store.Update(func(b db.IndexedBatch) error {
+			if e := b.Put(k1, []byte{1}); e != nil {
+				return e
+			}
+			if e := w.store.Put(k2, []byte{2}); e != nil {
+				return e
+			}
+			return errCb
+		})
+	case "callback-writes-batch": // the callback calls Write on the batch it was given
+		err = w.store.Update(func(b db.IndexedBatch) error {
+			if e := b.Put(k1, []byte{1}); e != nil {
+				return e
+			}
+			return b.Write()
+		})
+	case "nested-update":
+		err = w.store.Update(func(b db.IndexedBatch) error {
+			if e := b.Put(k1, []byte{1}); e != nil {
+				return e
+			}
+			return w.store.Write(func(b2 db.Batch) error { return b2.Put(k2, []byte{2}) })
+		})
+	case "get-callback-reads": // a Get callback that reads the store again (Has + a full scan)
+		err = w.store.Get(k1, func(v []byte) error {
+			if _, e := w.store.Has(k2); e != nil {
+				return e
+			}
+			it, e := w.store.NewIterator(nil, false)
+			if e != nil {
+				return e
+			}
+			for ok := it.First(); ok; ok = it.Next() {
+			}
+			return it.Close()
+		})
+	case "update-reads-store": // the callback reads the store and a snapshot while its batch is open
+		err = w.store.Update(func(b db.IndexedBatch) error {
+			if e := b.Put(k1, []byte{1}); e != nil {
+				return e
+			}
+			s := w.store.NewSnapshot()
+			defer s.Close()
+			has, e := s.Has(k1)
+			if e != nil {
+				return e
+			}
+			if has {
+				return b.Delete(k2)
+			}
+			return b.Put(k2, []byte{3})
+		})
+	default:
+		return "bad-op"
+	}
+	return classify(err) + " " + doScan(w.store, Op{})
 }
